@@ -104,7 +104,7 @@ def _replace_returns(s, target_expr, leave_id):
     return s
 
 
-def _inline_one(facts, f, stmt):
+def _inline_one(facts, f, stmt, want=None):
     """the replacement for statement `stmt` of f when it is `h(..);`, `x = h(..);`, `T x = h(..);` or `return h(..);`
     with an inlinable h; None otherwise"""
     call = target = None
@@ -132,7 +132,7 @@ def _inline_one(facts, f, stmt):
     if call is None:
         return None
     h = inlinable_helper(facts, f, call)
-    if h is None:
+    if h is None or (want is not None and not want(h, call)):
         return None
     body = copy.deepcopy(h['body'])
     mapping, to_var, decls = {}, set(), []
@@ -155,10 +155,10 @@ def _inline_one(facts, f, stmt):
             'loc': stmt.get('loc'), 'sid': stmt.get('sid'), 'flattened': bool(pre)}
 
 
-def _rewrite(facts, f, s, done):
+def _rewrite(facts, f, s, done, want=None):
     if s is None:
         return s
-    rep = _inline_one(facts, f, s)
+    rep = _inline_one(facts, f, s, want)
     if rep is not None:
         done.append(rep)
         return rep
@@ -166,7 +166,7 @@ def _rewrite(facts, f, s, done):
     if k == 'block':
         new = []
         for c in s['s']:
-            r = _rewrite(facts, f, c, done)
+            r = _rewrite(facts, f, c, done, want)
             # a declaration hoisted out of its initialiser stays visible to the following statements
             if r is not c and r.get('flattened'):
                 new.extend(r['s'])
@@ -176,24 +176,24 @@ def _rewrite(facts, f, s, done):
     elif k == 'if':
         for key in ('t', 'e'):
             if s.get(key):
-                s[key] = _rewrite(facts, f, s[key], done)
+                s[key] = _rewrite(facts, f, s[key], done, want)
     elif k in ('for', 'while', 'do', 'rangefor'):
         if s.get('body'):
-            s['body'] = _rewrite(facts, f, s['body'], done)
+            s['body'] = _rewrite(facts, f, s['body'], done, want)
     elif k == 'switch':
         for c in s['cases']:
-            c['s'] = [_rewrite(facts, f, x, done) for x in c['s']]
+            c['s'] = [_rewrite(facts, f, x, done, want) for x in c['s']]
     return s
 
 
-def inlined(facts, f, rounds=2):
+def inlined(facts, f, rounds=2, want=None):
     """a copy of f with its single-use helpers inlined (at most `rounds` levels); (copy, names of the inlined helpers).
     The copy has its own 'sig' so that per-function caches (CFG, definitions) do not mix it up with the original."""
     g = copy.deepcopy(f)
     names = []
     for _ in range(rounds):
         done = []
-        g['body'] = _rewrite(facts, f, g['body'], done)
+        g['body'] = _rewrite(facts, f, g['body'], done, want)
         if not done:
             break
         for d in done:
